@@ -129,6 +129,15 @@ inductive SVal where
   | value (tag : String)
   | call (fn : String) (first : Option Ref)  -- a callable that runs `fn` with this implicit first argument
   | descr (v : Val)                           -- an unbound classmethod/staticmethod object (found in an instance's own namespace)
+  | hookResult (fn : String) (self : Ref) (name : String)  -- whatever the user function `fn(self, name)` returns (`__getattr__`)
+deriving DecidableEq, Repr, Inhabited
+
+/-- a call of a user-defined hook function, not looked into: `fn(self, name[, value])` -/
+structure HookCall where
+  fn : String
+  self : Ref
+  key : String
+  val : Option Val
 deriving DecidableEq, Repr, Inhabited
 
 inductive SRes (α : Type) where
@@ -189,11 +198,69 @@ def specDelete (S : SState) (r : Ref) (name : String) : SRes SState :=
   | some _ => .ok { S with ns := setNs S.ns r name none }
   | none => .attrError
 
+/-! ### user hooks (round 2): `__getattr__`, `__setattr__`, `__init__`
+
+Python looks special methods up on the TYPE of the object, along the type's
+linearisation – never in the object's own namespace.  For an instance that is its
+class; for a class object it is the metatype `type`, which defines none of them. -/
+
+/-- the special method `name` that applies to the object `r` -/
+def specHook (S : SState) (r : Ref) (name : String) : Option Val :=
+  match r with
+  | .inst i => firstDef S (S.mro (S.clsOf i)) name
+  | .cls _ => none
+
+/-- `obj.name` with `__getattr__`: ordinary lookup first; only when that fails, `type(obj).__getattr__(obj, name)` -/
+def specReadH (S : SState) (r : Ref) (name : String) : SRes SVal :=
+  match specRead S r name with
+  | .attrError =>
+    match specHook S r "__getattr__" with
+    | none => .attrError
+    | some (.func f) => .ok (.hookResult f r name)
+    | some (.plain _) => .typeError          -- not callable
+    | some _ => .attrError                   -- (classmethod/staticmethod as hook: outside the model, see Model)
+  | x => x
+
+/-- `obj.name = v` with `__setattr__`: the hook found on the type is called INSTEAD of storing -/
+def specWriteH (S : SState) (log : List HookCall) (r : Ref) (name : String) (v : Val) : SRes (SState × List HookCall) :=
+  match specHook S r "__setattr__" with
+  | none => .ok (specWrite S r name v, log)
+  | some (.func f) => .ok (S, log ++ [⟨f, r, name, some v⟩])
+  | some (.plain _) => .typeError
+  | some _ => .attrError
+
+/-- `K()`: a fresh instance `i` (the caller supplies its number and has extended `clsOf`) with an empty
+namespace; then `__init__` found along the linearisation of `K` runs with the instance bound.  The body of
+an `__init__` function with tag `f` is, by the convention of the generated cases, `self.a = '<f>'`. -/
+def specInit (S : SState) (log : List HookCall) (i : Nat) : SRes (SState × List HookCall) :=
+  match firstDef S (S.mro (S.clsOf i)) "__init__" with
+  | none => .ok (S, log)
+  | some (.func f) => specWriteH S log (.inst i) "a" (.plain f)
+  | some (.plain _) => .typeError
+  | some _ => .attrError
+
 /-- ancestor-or-self: reflexive-transitive closure of "is a direct base of" -/
 inductive Anc (bases : Nat → List Nat) : Nat → Nat → Prop where
   | refl (c : Nat) : Anc bases c c
   | step {c b a : Nat} : b ∈ bases c → Anc bases b a → Anc bases c a
 
 def specIsInstance (S : SState) (i : Nat) (c : Nat) : Bool := (S.mro (S.clsOf i)).contains c
+
+/-! ### isinstance with a tuple (round 2) -/
+
+/-- `isinstance(i, a)` for a single second argument: a class, or an object that is not a class (TypeError) -/
+def specIsInstance1 (S : SState) (i : Nat) : Ref → SRes Bool
+  | .cls c => .ok (specIsInstance S i c)
+  | .inst _ => .typeError
+
+/-- `isinstance(i, (a1, …, an))`: the elements are tested left to right, the first match answers True,
+an element that is not a class raises TypeError when it is reached -/
+def specIsInstanceT (S : SState) (i : Nat) : List Ref → SRes Bool
+  | [] => .ok false
+  | a :: rest =>
+    match specIsInstance1 S i a with
+    | .ok true => .ok true
+    | .ok false => specIsInstanceT S i rest
+    | e => e
 
 end GPy.C16
